@@ -1,0 +1,38 @@
+// Copyright 2023-2026 Buf Technologies, Inc.
+//
+// Licensed under the Apache License, Version 2.0 (the "License");
+// you may not use this file except in compliance with the License.
+// You may obtain a copy of the License at
+//
+//      http://www.apache.org/licenses/LICENSE-2.0
+//
+// Unless required by applicable law or agreed to in writing, software
+// distributed under the License is distributed on an "AS IS" BASIS,
+// WITHOUT WARRANTIES OR CONDITIONS OF ANY KIND, either express or implied.
+// See the License for the specific language governing permissions and
+// limitations under the License.
+
+//go:build verif
+
+package vanguard
+
+import "bytes"
+
+// VerifHooks lets a deterministic-simulation harness take over the buffer pool.
+// It only exists in builds with the "verif" tag.
+type VerifHooks struct {
+	// BufGet returns the buffer to hand out, or nil to fall through to the
+	// regular sync.Pool behavior.
+	BufGet func(pool any) *bytes.Buffer
+	// BufPut returns true if it took ownership of the buffer.
+	BufPut func(pool any, buffer *bytes.Buffer) bool
+}
+
+const verifEnabled = true
+
+var verifHooks *VerifHooks //nolint:gochecknoglobals
+
+// SetVerifHooks installs (or, with nil, removes) the simulation hooks.
+func SetVerifHooks(hooks *VerifHooks) {
+	verifHooks = hooks
+}
